@@ -1,12 +1,24 @@
-"""C18 helper: factories, canonicalisation and setter descriptions for the anchored classes.
+"""C18 — Cached and lazily loaded results do not depend on the order of use.
 
-Everything here builds inputs from plain numbers (stdlib `random` seeded from the JSON spec), so a
-stored replay input is self-contained.  No function here compares anything: it only constructs
-objects of the real classes and canonicalises what their public attributes return.
+Model: lean/Ladybug/Model/Lazy.lean (generic memo objects + table machine), Model/WindProfile.lean;
+theorems: lean/Ladybug/Props/C18.lean; driver: drv_c18.
+Tie: translators (Gen/LazyDeps from the eight table classes, Gen/WindTables from windprofile.py)
++ correspondence (WindProfile model vs real on setter sequences; table machine verdicts vs real
+objects; static tables vs attribute accesses traced at run time).
+
+First part of this file: factories, canonicalisation and setter descriptions for the anchored
+classes.  Everything builds inputs from plain numbers (stdlib `random` seeded from the JSON spec),
+so a stored replay input is self-contained.
 """
+import copy
+import json
 import math
 import os
 import random
+import struct
+
+from harness import core
+from harness.core import run_oracle_cases
 
 REPO = os.environ.get('LADYBUG_REPO', '/repo')
 SQL_DIR = os.path.join(REPO, 'tests', 'assets', 'sql')
@@ -155,6 +167,14 @@ APS = [[1, 1, 0, 12, 31, 23, 1, False], [3, 10, 0, 3, 20, 23, 1, False], [6, 1, 
        [7, 1, 20, 7, 5, 4, 1, False], [1, 1, 6, 2, 10, 18, 4, False], [2, 28, 0, 3, 1, 23, 1, True]]
 
 
+APS_FULL = [a for a in APS if a[2] == 0 and a[5] == 23]
+
+
+def _pick_ap(rng):
+    """mostly short full-day periods; the annual one now and then"""
+    return APS_FULL[0] if rng.random() < 0.12 else rng.choice(APS_FULL[1:])
+
+
 class Spec(object):
     name = ''
     setters = {}          # setter name -> function(rng) -> JSON-able value
@@ -205,7 +225,8 @@ class SqlSpec(Spec):
         return self.cls()(os.path.join(SQL_DIR, spec['file']))
 
 
-EPW_HEADER_PROPS = ['location', 'metadata', 'is_leap_year', 'is_header_loaded', 'is_data_loaded', 'is_ip',
+EPW_STATE_PROPS = ['is_header_loaded', 'is_data_loaded']   # report the loading state itself: excluded
+EPW_HEADER_PROPS = ['location', 'metadata', 'is_leap_year', 'is_ip',
                     'file_path', 'ashrae_climate_zone', 'annual_heating_design_day_996',
                     'annual_heating_design_day_990', 'annual_cooling_design_day_004',
                     'annual_cooling_design_day_010', 'heating_design_condition_dictionary',
@@ -222,7 +243,7 @@ class EpwSpec(Spec):
         return EPW
 
     def gen(self, rng):
-        allp = public_props(self.cls())
+        allp = [p for p in public_props(self.cls()) if p not in EPW_STATE_PROPS]
         data = [p for p in allp if p not in EPW_HEADER_PROPS]
         keep = sorted(rng.sample(data, min(len(data), 5)) + [p for p in allp if p in EPW_HEADER_PROPS])
         return {'file': rng.choice(EPW_FILES), 'props': keep}
@@ -262,7 +283,7 @@ class HccSpec(Spec):
         return HourlyContinuousCollection
 
     def gen(self, rng):
-        return {'ap': rng.choice(APS), 'seed': rng.randrange(1000)}
+        return {'ap': _pick_ap(rng), 'seed': rng.randrange(1000)}
 
     def build(self, spec):
         return _collection('temp', spec['ap'], spec['seed'], -10, 35)
@@ -276,7 +297,7 @@ class HourlyPlotSpec(Spec):
         return HourlyPlot
 
     def gen(self, rng):
-        return {'ap': rng.choice(APS), 'seed': rng.randrange(1000),
+        return {'ap': _pick_ap(rng), 'seed': rng.randrange(1000),
                 'x_dim': rng.choice([1, 2.5]), 'y_dim': rng.choice([4, 1.5]),
                 'z_dim': rng.choice([0, 0, 10]), 'reverse_y': rng.random() < 0.4,
                 'base': [rng.choice([0, 5.5]), rng.choice([0, -3.0]), 0]}
@@ -295,7 +316,7 @@ class WindRoseSpec(Spec):
         return WindRose
 
     def gen(self, rng):
-        return {'ap': rng.choice(APS[:6]), 'seed': rng.randrange(1000),
+        return {'ap': _pick_ap(rng), 'seed': rng.randrange(1000),
                 'count': rng.choice([4, 8, 8, 16, 3]), 'calm': rng.choice([0.0, 0.1, 0.3])}
 
     def build(self, spec):
@@ -378,7 +399,7 @@ class PsychSpec(Spec):
         return PsychrometricChart
 
     def gen(self, rng):
-        return {'ap': rng.choice([APS[1], APS[2], APS[4], APS[5]]), 'seed': rng.randrange(1000),
+        return {'ap': rng.choice(APS_FULL[1:]), 'seed': rng.randrange(1000),
                 'ip': rng.random() < 0.25, 'lp': rng.choice([None, {'segment_count': 6}])}
 
     def build(self, spec):
@@ -499,3 +520,600 @@ def final_settings(spec_obj, calls):
             last.pop(o, None)
     keep = sorted(last.values())
     return [calls[i] for i in keep]
+
+
+# =============================================================================================
+# the check module
+# =============================================================================================
+
+PROP = 'C18'
+PROOF_MODULES = ['Ladybug.Props.C18']
+GREP_MODULES = ['Ladybug.Model.Lazy', 'Ladybug.Model.WindProfile', 'Ladybug.Gen.LazyDeps',
+                'Ladybug.Gen.WindTables', 'Ladybug.Proofs.C18Lemmas', 'Ladybug.Proofs.C18Wind',
+                'Ladybug.Drv.C18', 'Ladybug.DrvCore']
+RULE = ('correspondence: (wind) random constructor arguments + 0-12 setter calls (10 % rejected ones) + '
+        'calculate_wind at boundary-biased heights, model vs real WindProfile (1e-12 relative); (tm) random '
+        'read/setter histories on the eight table classes, table-machine verdict vs the real object compared with '
+        'a fresh object; (trace) attribute reads/writes of every getter/setter recorded on a tracing subclass must '
+        'be inside the static table. oracle: per class random permutations/repetitions of all public properties on '
+        'one object vs first reads on fresh objects, and setter histories with interleaved reads vs a fresh object '
+        'built with the final settings; WindProfile identity and monotonicity. A case is non-trivial when it '
+        'performs at least one read after another read or setter; distinct = distinct (op, input)')
+TRUSTED_BASE = [
+    'translator tools/extract/lazy_deps.py: that the read/write sets it derives over-approximate what the getter/'
+    'setter code touches (cross-checked on every run by tracing the real objects: dynamic subset of static) and '
+    'that equal code hashes mean equal defining expressions',
+    'translator tools/extract/wind_tables.py: copies TERRAIN_PARAMETERS and, per setter, the attributes assigned '
+    'and the _compute_* helpers called; the bodies of _compute_met_power_denom/_compute_met_log_denom/'
+    'calculate_wind/__init__ are compared as ast with the modelled text',
+    'semantic assumption of theorem C18_frame_of_table: a defining expression depends only on the attributes it '
+    'reads (no hidden global state); file contents of the .sql/.epw assets do not change during a run',
+    'the link "table passes wellFormed => the table machine answers ok on every history" is exercised by the '
+    'correspondence (tm) on random histories, not proved',
+    'Float pow/log of the driver vs CPython (same libm; compared within 1e-12 relative)',
+]
+ASSUMPTIONS = ['heights and speeds passed to calculate_wind are >= 0',
+               'EPW.is_header_loaded / is_data_loaded report the loading state itself and are excluded from the '
+               'order-independence claim']
+TECHNIQUE = ('Lean 4 proof (induction over read/setter histories of a generic memo object and of the WindProfile state '
+             'machine; decide on dependency tables regenerated from the source; Real.rpow/Real.log facts) tied to the '
+             'code by translators, run-time tracing and differential correspondence')
+LEVEL_TEXT = ('Machine-checked Lean 4 theorems: for a generic memo object all read histories are order/repetition '
+              'independent and, when every setter clears the slots that read its field, every read after any '
+              'read/setter history equals that of a fresh object with the final settings; the dependency tables of '
+              'ViewSphere, SQLiteResult, AnalysisPeriod, HourlyPlot, WindRose, MonthlyChart, PsychrometricChart and '
+              'Compass are regenerated from the source on every run and proved (decide) to satisfy the hypotheses; '
+              'WindProfile: for all setter sequences the object equals a fresh one with the final settings, and over '
+              'the reals it returns the meteorological speed at the meteorological height and never decreases with '
+              'height. EPW lazy loading and HourlyContinuousCollection.datetimes are covered by the oracle only.')
+LEVEL_NOTE = ('Trusted: Lean kernel, standard axioms, the two translators (cross-checked by run-time tracing), the '
+              'correspondence run, float vs real arithmetic. The log-law identity needs met height > roughness length; '
+              'the setters do not enforce it (known finding).')
+
+
+def extract(ctx):
+    from tools.extract import lazy_deps, wind_tables
+    ctx.wind = wind_tables.extract()
+    ctx.tabs = lazy_deps.extract()
+
+
+def _fbits(x):
+    return '%016x' % struct.unpack('<Q', struct.pack('<d', float(x)))[0]
+
+
+def _unbits(s):
+    return struct.unpack('<d', struct.pack('<Q', int(s, 16)))[0]
+
+
+def _close(a, b):
+    if a == b:
+        return True
+    return abs(a - b) <= 1e-12 * max(abs(a), abs(b), 1e-300)
+
+
+# ---------------------------------------------------------------------------------------------
+# correspondence 1: WindProfile model vs real
+
+WKINDS = ['terrain', 'meteorological_terrain', 'meteorological_height', 'log_law', 'boundary_layer_height',
+          'power_law_exponent', 'roughness_length', 'met_boundary_layer_height', 'met_power_law_exponent',
+          'met_roughness_length']
+
+
+def _terr_tok(t):
+    tl = t.lower() if isinstance(t, str) else None
+    return str(TERRAINS.index(tl)) if tl in TERRAINS else 'x'
+
+
+def _gen_wind_case(rng, malformed):
+    def terr():
+        if malformed and rng.random() < 0.3:
+            return rng.choice(['forest', 'urban', ''])
+        t = rng.choice(TERRAINS)
+        return t.upper() if rng.random() < 0.1 else t
+
+    def num(kind):
+        if malformed and rng.random() < 0.4:
+            return rng.choice([0, -1, -0.5, 1, 1.5]) if 'exponent' in kind else rng.choice([0, -1, -2.5])
+        if 'exponent' in kind:
+            return rng.choice([0.33, 0.22, 0.14, 0.1, round(rng.uniform(0.01, 0.99), 3)])
+        if 'roughness' in kind:
+            return rng.choice([1.0, 0.5, 0.1, 0.03, round(rng.uniform(0.001, 3), 3), 2])
+        if 'boundary' in kind:
+            return rng.choice([460, 370, 270, 210, round(rng.uniform(50, 1500), 1)])
+        return rng.choice([10, 2, 30.5, 100, 5, round(rng.uniform(0.2, 200), 2), 1])
+    calls = []
+    for _ in range(rng.randrange(0, 13)):
+        k = rng.randrange(10)
+        name = WKINDS[k]
+        if k < 2:
+            calls.append([k, terr()])
+        elif k == 3:
+            calls.append([k, rng.random() < 0.5])
+        else:
+            calls.append([k, num(name)])
+    qs = []
+    for _ in range(6):
+        h = rng.choice(WIND_HEIGHTS + [0, 0.03, 0.1, 1.0, round(rng.uniform(0, 600), 2)])
+        qs.append([rng.choice([0, 1, 5.5, round(rng.uniform(0, 40), 2)]), h])
+    return {'t': terr(), 'mt': terr(), 'mh': num('meteorological_height'), 'll': rng.random() < 0.5,
+            'calls': calls, 'qs': qs}
+
+
+def _wind_line(c):
+    toks = ['wind', _terr_tok(c['t']), _terr_tok(c['mt']), _fbits(c['mh']), '1' if c['ll'] else '0',
+            str(len(c['calls']))]
+    for k, a in c['calls']:
+        toks.append(str(k))
+        toks.append(_terr_tok(a) if k < 2 else ('1' if a else '0') if k == 3 else _fbits(a))
+    toks.append(str(len(c['qs'])))
+    for v, h in c['qs']:
+        toks += [_fbits(v), _fbits(h)]
+    return ' '.join(toks)
+
+
+def _wind_impl(c):
+    from ladybug.windprofile import WindProfile
+    try:
+        w = WindProfile(c['t'], c['mt'], c['mh'], c['ll'])
+    except Exception as e:
+        return 'err:' + core.err_name(e)
+    st = ''
+    for k, a in c['calls']:
+        try:
+            setattr(w, WKINDS[k], a)
+            st += '0'
+        except AssertionError:
+            st += 'a'
+        except ValueError:
+            st += 'v'
+    nums = [w.meteorological_height, w.boundary_layer_height, w.power_law_exponent, w.roughness_length,
+            w.met_boundary_layer_height, w.met_power_law_exponent, w.met_roughness_length]
+    res = []
+    for v, h in c['qs']:
+        try:
+            res.append(_fbits(w.calculate_wind(v, h)))
+        except ZeroDivisionError:
+            res.append('err:zero')
+    return 'ok [%s] %d %d %s %s | %s' % (st, TERRAINS.index(w.terrain), TERRAINS.index(w.meteorological_terrain),
+                                        '1' if w.log_law else '0', ' '.join(_fbits(x) for x in nums), ' '.join(res))
+
+
+def _wind_same(mo, io):
+    """model line vs impl line: exact tokens, floats within 1e-12; the model's two trailing cfg
+    tokens (the private denominators) are not compared"""
+    if mo.startswith('err') or io.startswith('err'):
+        return mo == io
+    mh, mr = mo.split(' | ') if ' | ' in mo else (mo.rstrip(' |'), '')
+    ih, ir = io.split(' | ') if ' | ' in io else (io.rstrip(' |'), '')
+    mt, it = mh.split(), ih.split()
+    if mt[:5] != it[:5] or len(mt) != len(it) + 2:
+        return False
+    for a, b in zip(mt[5:12], it[5:12]):
+        if not _close(_unbits(a), _unbits(b)):
+            return False
+    mq, iq = mr.split(), ir.split()
+    if len(mq) != len(iq):
+        return False
+    for a, b in zip(mq, iq):
+        if a.startswith('err') or b.startswith('err'):
+            if a != b:
+                return False
+        elif not _close(_unbits(a), _unbits(b)):
+            return False
+    return True
+
+
+def _corr_wind(ctx):
+    rng = ctx.rng
+    cases = [_gen_wind_case(rng, rng.random() < 0.12) for _ in range(ctx.n(1500, 40000))]
+    lines = [_wind_line(c) for c in cases]
+    outs = ctx.driver().run(lines)
+    for c, line, mo in zip(cases, lines, outs):
+        io = _wind_impl(c)
+        ctx.compared += 1
+        ctx.count('op:wind')
+        ctx.count('wind:calls=%d' % min(len(c['calls']), 12))
+        if io.startswith('err'):
+            ctx.count('wind:ctor-rejected')
+        elif 'a' in io.split(']')[0] or 'v' in io.split(']')[0]:
+            ctx.count('wind:some-call-rejected')
+        if 'err:zero' in io:
+            ctx.count('wind:zero-division')
+        ctx.case(('wind', line), nontrivial=not io.startswith('err') and len(c['calls']) > 0)
+        if not _wind_same(mo, io):
+            ctx.disagree('wind', {'case': c, 'line': line}, mo, io)
+    if cases:
+        ctx.sample({'op': 'wind', 'request': lines[0], 'model': outs[0]})
+
+
+# ---------------------------------------------------------------------------------------------
+# correspondence 2: table machine vs real objects; 3: traced accesses inside the static tables
+
+TABLE_CLASSES = ['ViewSphere', 'SQLiteResult', 'AnalysisPeriod', 'HourlyPlot', 'WindRose', 'MonthlyChart',
+                 'PsychrometricChart', 'Compass']
+
+
+def _setter_choices(S, tab_setter):
+    """names of this module's setter descriptions that realise a table setter"""
+    if tab_setter == 'set_minimum_by_index()':
+        return ['min0', 'min1']
+    if tab_setter == 'set_maximum_by_index()':
+        return ['max0', 'max1']
+    return [tab_setter] if tab_setter in S.setters else []
+
+
+def _fresh_value(S, spec, calls, name):
+    b = S.build(spec)
+    for sn, v in final_settings(S, calls):
+        S.apply(b, sn, v)
+    return do_read(S, b, name)
+
+
+def _corr_tm(ctx):
+    rng = ctx.rng
+    tabs = {t['class']: t for t in ctx.tabs}
+    budget = ctx.n(18, 300)
+    for cname in TABLE_CLASSES:
+        S, t = SPECS[cname], tabs[cname]
+        gnames = sorted(t['getters'])
+        snames = sorted(t['setters'])
+        expr_owner = {}
+        for g in gnames:
+            for st in t['getters'][g]['sites']:
+                expr_owner.setdefault(st['expr'], g)
+        n_hist = max(3, budget // (6 if cname in ('HourlyPlot', 'ViewSphere', 'PsychrometricChart') else 2))
+        hists = []
+        for _ in range(n_hist):
+            spec = S.gen(rng)
+            ops = []
+            for _ in range(rng.randrange(2, 9)):
+                if snames and rng.random() < 0.35:
+                    si = rng.randrange(len(snames))
+                    ch = _setter_choices(S, snames[si])
+                    if ch:
+                        sn = rng.choice(ch)
+                        ops.append(['s', si, sn, S.setters[sn](rng)])
+                        continue
+                ops.append(['g', rng.randrange(len(gnames))])
+            hists.append((spec, ops))
+        lines = ['tm %s %s' % (cname, ' '.join('%s%d' % (o[0], o[1]) for o in ops)) for _, ops in hists]
+        outs = ctx.driver().run(lines)
+        for (spec, ops), line, out in zip(hists, lines, outs):
+            verdicts = out.split()
+            obj = S.build(spec)
+            calls, vi = [], 0
+            ok_line = True
+            for o in ops:
+                if o[0] == 's':
+                    try:
+                        S.apply(obj, o[2], o[3])
+                        calls.append((o[2], o[3]))
+                    except Exception:
+                        ok_line = False     # a rejected call: the table machine has no notion of it
+                        break
+                    continue
+                g = gnames[o[1]]
+                got = do_read(S, obj, g)
+                v = verdicts[vi] if vi < len(verdicts) else 'missing'
+                vi += 1
+                ctx.compared += 1
+                ctx.count('op:tm')
+                ctx.count('tm:%s:%s' % (cname, v.split(':')[0]))
+                ctx.case(('tm', cname, line, vi), nontrivial=vi > 1)
+                if v == 'ok':
+                    want = _fresh_value(S, spec, calls, g)
+                    if got != want:
+                        ctx.disagree('tm', {'class': cname, 'spec': spec, 'ops': ops, 'read': g},
+                                     'ok (value of a fresh object)', json.dumps(got)[:200])
+                elif v.startswith('alias:'):
+                    owner = expr_owner.get(int(v[6:]))
+                    want = _fresh_value(S, spec, calls, owner) if owner else None
+                    if got != want:
+                        ctx.disagree('tm', {'class': cname, 'spec': spec, 'ops': ops, 'read': g},
+                                     'alias of ' + str(owner), json.dumps(got)[:200])
+                elif v == 'unset':
+                    if got != ['raises', 'AttributeError']:
+                        ctx.disagree('tm', {'class': cname, 'spec': spec, 'ops': ops, 'read': g},
+                                     'unset (AttributeError)', json.dumps(got)[:200])
+                elif v == 'missing':
+                    ctx.disagree('tm', {'class': cname, 'line': line}, out, 'more reads than verdicts')
+            if not ok_line:
+                ctx.count('tm:history-with-rejected-call')
+        if hists:
+            ctx.sample({'op': 'tm', 'request': lines[0], 'model': outs[0]})
+
+
+def _tracing_class(cls, log):
+    def ga(self, name):
+        if name.startswith('_') and not name.startswith('__') and log['on']:
+            log['r'].add(name)
+        return object.__getattribute__(self, name)
+
+    def sa(self, name, value):
+        if name.startswith('_') and not name.startswith('__') and log['on']:
+            log['w'].add(name)
+        object.__setattr__(self, name, value)
+    return type('Traced' + cls.__name__, (cls,), {'__slots__': (), '__getattribute__': ga, '__setattr__': sa})
+
+
+def _corr_trace(ctx):
+    rng = ctx.rng
+    tabs = {t['class']: t for t in ctx.tabs}
+    for cname in TABLE_CLASSES:
+        S, t = SPECS[cname], tabs[cname]
+        real = S.cls()
+        log = {'on': False, 'r': set(), 'w': set()}
+        T = _tracing_class(real, log)
+        orig = S.cls
+        S.cls = lambda T=T: T
+        try:
+            for rep in range(ctx.n(1, 3)):
+                spec = S.gen(rng)
+                funcs = set(dir(real))        # methods and (private) properties are not data attributes
+                for g in sorted(t['getters']):
+                    obj = S.build(spec)
+                    if rep and S.setters:       # also after a setter call
+                        sn = rng.choice(sorted(S.setters))
+                        try:
+                            S.apply(obj, sn, S.setters[sn](rng))
+                        except Exception:
+                            pass
+                    log['r'], log['w'], log['on'] = set(), set(), True
+                    try:
+                        getattr(obj, g)
+                    except Exception:
+                        pass
+                    log['on'] = False
+                    tot = t['totals'][g]
+                    dead = set(t['dead'])
+                    xr = log['r'] - set(tot['reads']) - funcs - dead
+                    xw = log['w'] - set(tot['writes']) - dead
+                    ctx.compared += 1
+                    ctx.count('op:trace')
+                    ctx.case(('trace', cname, g, rep))
+                    if xr or xw:
+                        ctx.disagree('trace', {'class': cname, 'getter': g, 'spec': spec},
+                                     'static reads/writes cover the run',
+                                     'extra reads %s extra writes %s' % (sorted(xr), sorted(xw)))
+                for sname in sorted(t['setters']):
+                    for sn in _setter_choices(S, sname):
+                        obj = S.build(spec)
+                        log['r'], log['w'], log['on'] = set(), set(), True
+                        try:
+                            S.apply(obj, sn, S.setters[sn](rng))
+                        except Exception:
+                            pass
+                        log['on'] = False
+                        key = 'set:' + sname if not sname.endswith('()') else 'call:' + sname[:-2]
+                        tot = t['totals'][key]
+                        xw = log['w'] - set(tot['writes'])
+                        ctx.compared += 1
+                        ctx.count('op:trace')
+                        if xw:
+                            ctx.disagree('trace', {'class': cname, 'setter': sname, 'spec': spec},
+                                         'static writes cover the run', 'extra writes %s' % sorted(xw))
+        finally:
+            S.cls = orig
+
+
+def correspondence(ctx):
+    _corr_wind(ctx)
+    _corr_trace(ctx)
+    _corr_tm(ctx)
+
+
+# ---------------------------------------------------------------------------------------------
+# property oracle (independent of the model): the statement of C18 on the real classes
+
+
+def _sig_reads(cname, name, got, want, spec=None):
+    kind = 'raises' if (isinstance(got, list) and got[:1] == ['raises']) else \
+        'fresh-raises' if (isinstance(want, list) and want[:1] == ['raises']) else 'differs'
+    sig = {'class': cname, 'attr': name, 'kind': kind}
+    if spec and 'file' in spec:
+        sig['file'] = spec['file']
+    return sig
+
+
+def check_case(op, inp):
+    if op == 'reads':
+        # one object, a sequence of public reads; each must equal the first read on a fresh object
+        S = SPECS[inp['class']]
+        spec = inp['spec']
+        obj = S.build(spec)
+        fresh = {}
+        for name in inp['seq']:
+            got = do_read(S, obj, name)
+            if name not in fresh:
+                fresh[name] = do_read(S, S.build(spec), name)
+            if got != fresh[name]:
+                return {'required': 'read of %s equals first read on a fresh object: %s'
+                                    % (name, json.dumps(fresh[name])[:300]),
+                        'observed': json.dumps(got)[:300], 'sig': _sig_reads(inp['class'], name, got, fresh[name], spec)}
+        return None
+    if op == 'setters':
+        # history of setter calls with interleaved reads, then every attribute vs a fresh object
+        # built directly with the final settings (each attribute first-read on its own pair of objects)
+        S = SPECS[inp['class']]
+        spec = inp['spec']
+
+        def used():
+            o = S.build(spec)
+            calls = []
+            for h in inp['ops']:
+                if h[0] == 'read':
+                    do_read(S, o, h[1])
+                else:
+                    try:
+                        S.apply(o, h[1], h[2])
+                        calls.append((h[1], h[2]))
+                    except (AssertionError, ValueError, TypeError):
+                        pass            # a rejected call is not part of the settings
+            return o, calls
+        for name in inp['check']:
+            a, calls = used()
+            b = S.build(spec)
+            for sn, v in final_settings(S, calls):
+                S.apply(b, sn, v)
+            got, want = do_read(S, a, name), do_read(S, b, name)
+            if got != want:
+                setters = sorted(set(h[1] for h in inp['ops'] if h[0] == 'set'))
+                return {'required': '%s after the history equals that of a fresh object with the final settings: %s'
+                                    % (name, json.dumps(want)[:300]),
+                        'observed': json.dumps(got)[:300],
+                        'sig': {'class': inp['class'], 'attr': name, 'kind': 'stale-after-setter',
+                                'setters': setters if len(setters) <= 2 else 'many'}}
+        return None
+    if op in ('wind_identity', 'wind_monotone'):
+        from ladybug.windprofile import WindProfile
+        w = WindProfile(inp['t'], inp['mt'], inp['mh'], inp['ll'])
+        for k, a in inp.get('calls', []):
+            try:
+                setattr(w, WKINDS[k], a)
+            except (AssertionError, ValueError):
+                pass
+        below = w.log_law and w.meteorological_height <= w.met_roughness_length
+        sig = {'law': 'log' if w.log_law else 'power', 'met_height_le_roughness': bool(below)}
+        if op == 'wind_identity':
+            # location terrain := meteorological terrain parameters
+            w.boundary_layer_height = w.met_boundary_layer_height
+            w.power_law_exponent = w.met_power_law_exponent
+            w.roughness_length = w.met_roughness_length
+            v = inp['v']
+            try:
+                got = w.calculate_wind(v, w.meteorological_height)
+            except ZeroDivisionError:
+                got = 'ZeroDivisionError'
+            if got == 'ZeroDivisionError' or abs(got - v) > 1e-9 * max(1.0, abs(v)):
+                return {'required': 'speed %r at the meteorological height %r' % (v, w.meteorological_height),
+                        'observed': repr(got), 'sig': sig}
+            return None
+        hs = sorted(inp['heights'])
+        prev = None
+        for h in hs:
+            try:
+                cur = w.calculate_wind(inp['v'], h)
+            except ZeroDivisionError:
+                return {'required': 'a speed at height %r' % h, 'observed': 'ZeroDivisionError', 'sig': sig}
+            if prev is not None and cur < prev - 1e-12 * max(1.0, abs(prev)):
+                return {'required': 'speed non-decreasing in height (%r at lower height)' % prev,
+                        'observed': '%r at height %r' % (cur, h), 'sig': sig}
+            prev = cur
+        return None
+    raise ValueError('unknown op ' + op)
+
+
+replay = check_case
+
+AP_YEAR = APS_FULL[0]
+CORPUS = [
+    ('reads', {'class': 'ViewSphere', 'spec': {}, 'seq': ['tregenza_solid_angles', 'reinhart_solid_angles']}),
+    ('reads', {'class': 'ViewSphere', 'spec': {}, 'seq': ['reinhart_solid_angles', 'tregenza_solid_angles',
+                                                         'tregenza_dome_vectors', 'tregenza_dome_mesh']}),
+    ('reads', {'class': 'HourlyPlot', 'spec': {'ap': APS_FULL[1], 'seed': 1, 'x_dim': 1, 'y_dim': 4, 'z_dim': 0,
+                                               'reverse_y': False, 'base': [0, 0, 0]},
+               'seq': ['hour_labels', 'hour_labels_24', 'hour_lines2d', 'hour_labels_24']}),
+    ('reads', {'class': 'SQLiteResult', 'spec': {'file': 'eplusout_timestep.sql'},
+               'seq': ['reporting_frequency', 'available_outputs', 'reporting_frequency']}),
+    ('reads', {'class': 'SQLiteResult', 'spec': {'file': 'eplusout_hourly.sql'},
+               'seq': ['run_period_names', 'run_periods', 'reporting_frequency', 'run_period_names']}),
+    # known finding: leap flag known only after the body is read when the header field is missing
+    ('reads', {'class': 'EPW', 'spec': {'file': 'los_angeles_no_leap_field.epw'},
+               'seq': ['dry_bulb_temperature', 'is_leap_year']}),
+    ('reads', {'class': 'EPW', 'spec': {'file': 'los_angeles_no_leap_field.epw'},
+               'seq': ['location', 'wind_speed', 'header']}),
+    ('reads', {'class': 'EPW', 'spec': {'file': 'chicago.epw'},
+               'seq': ['wind_speed', 'header', 'location', 'is_leap_year', 'wind_speed']}),
+    ('setters', {'class': 'WindRose', 'spec': {'ap': AP_YEAR, 'seed': 615, 'count': 8, 'calm': 0.1},
+                 'ops': [['read', 'frequency_intervals_compass'], ['set', 'frequency_hours', 50]],
+                 'check': ['histogram_data', 'frequency_intervals_compass', 'compass_radius']}),
+    ('setters', {'class': 'WindRose', 'spec': {'ap': APS_FULL[1], 'seed': 7, 'count': 8, 'calm': 0.1},
+                 'ops': [['read', 'windrose_lines'], ['set', 'show_zeros', True]],
+                 'check': ['windrose_lines']}),
+    ('setters', {'class': 'WindProfile', 'spec': {'terrain': 'city', 'met_terrain': 'country', 'met_height': 10,
+                                                  'log_law': True},
+                 'ops': [['set', 'met_roughness_length', 0.5], ['read', 'calculate_wind(5.5,10)'],
+                         ['set', 'meteorological_height', 30.5], ['set', 'terrain', 'water']],
+                 'check': ['calculate_wind(5.5,10)', 'calculate_wind(1,100.5)', 'roughness_length']}),
+    ('wind_identity', {'t': 'city', 'mt': 'country', 'mh': 10, 'll': False, 'v': 5.5}),
+    ('wind_identity', {'t': 'city', 'mt': 'country', 'mh': 10, 'll': True, 'v': 5.5}),
+    # known finding: meteorological height below the roughness length is accepted by the setters
+    ('wind_identity', {'t': 'city', 'mt': 'city', 'mh': 0.5, 'll': True, 'v': 5}),
+    ('wind_monotone', {'t': 'suburban', 'mt': 'country', 'mh': 10, 'll': True, 'v': 3, 'heights': WIND_HEIGHTS}),
+]
+
+
+def _gen_reads(ctx, cname, k):
+    rng = ctx.rng
+    S = SPECS[cname]
+    for _ in range(k):
+        spec = S.gen(rng)
+        names = all_reads(S, spec)
+        if cname == 'WindProfile':
+            names = rng.sample(names, 12)
+        seq = list(names)
+        rng.shuffle(seq)
+        extra = [rng.choice(names) for _ in range(max(2, len(names) // 2))]
+        seq = seq + extra if rng.random() < 0.5 else extra + seq
+        ctx.count('reads:%s' % cname)
+        ctx.count('reads:len=%d0s' % (len(seq) // 10))
+        yield 'reads', {'class': cname, 'spec': spec, 'seq': seq}
+
+
+def _gen_setters(ctx, cname, k):
+    rng = ctx.rng
+    S = SPECS[cname]
+    for _ in range(k):
+        spec = S.gen(rng)
+        names = all_reads(S, spec)
+        chk = names if len(names) <= 8 else rng.sample(names, 8 if ctx.quick else 14)
+
+        def pick():
+            # mostly an attribute that is compared afterwards: a stale cache needs a read before the setter
+            return rng.choice(chk) if rng.random() < 0.75 else rng.choice(names)
+        ops = []
+        interleave = rng.random() < 0.7
+        if interleave:
+            for _ in range(rng.randrange(1, 4)):
+                ops.append(['read', pick()])
+        for _ in range(rng.randrange(1, 7)):
+            sn = rng.choice(sorted(S.setters))
+            ops.append(['set', sn, S.setters[sn](rng)])
+            if interleave and rng.random() < 0.6:
+                ops.append(['read', pick()])
+        ctx.count('setters:%s' % cname)
+        ctx.count('setters:interleaved' if interleave else 'setters:plain')
+        yield 'setters', {'class': cname, 'spec': spec, 'ops': ops, 'check': sorted(chk)}
+
+
+def _oracle_cases(ctx):
+    rng = ctx.rng
+    for c in CORPUS:
+        yield c
+    big = (not ctx.quick) or ctx.searching
+    m = 6 if big else 1
+    plan = [('ViewSphere', 2), ('SQLiteResult', 6), ('EPW', 1), ('AnalysisPeriod', 12),
+            ('HourlyContinuousCollection', 3), ('HourlyPlot', 3), ('WindRose', 4), ('MonthlyChart', 3),
+            ('PsychrometricChart', 3), ('Compass', 10), ('WindProfile', 20)]
+    for cname, k in plan:
+        for c in _gen_reads(ctx, cname, k * m):
+            yield c
+    for cname, k in [('WindRose', 10), ('MonthlyChart', 6), ('Compass', 20), ('WindProfile', 60)]:
+        for c in _gen_setters(ctx, cname, k * m):
+            yield c
+    for _ in range(200 * m):
+        c = _gen_wind_case(rng, False)
+        c['v'] = rng.choice([0, 1, 5.5, round(rng.uniform(0, 40), 2)])
+        c['heights'] = sorted(set(rng.choice(WIND_HEIGHTS + [0, 0.01, 0.03, 0.1, 1.0, 3])
+                                  for _ in range(6)) | {round(rng.uniform(0, 600), 2)})
+        c.pop('qs')
+        # keep the log law inside its domain (met height above every roughness length used): the
+        # out-of-domain case is the recorded finding and is exercised by the fixed corpus only
+        c['mh'] = max(c['mh'], 3.5)
+        c['calls'] = [[k, (max(a, 3.5) if k == 2 else a)] for k, a in c['calls']]
+        yield 'wind_identity', c
+        yield 'wind_monotone', c
+
+
+def oracle(ctx):
+    run_oracle_cases(ctx, _oracle_cases(ctx), check_case)
